@@ -283,6 +283,9 @@ pub enum ScanItem {
     Trailer(Dictionary)
 }
 
+/// How many typed loads may be in progress inside each other (the page tree alone is limited to 16).
+const MAX_NESTED_GETS: usize = 64;
+
 struct StorageResolver<'a, B, OC, SC, L> {
     storage: &'a Storage<B, OC, SC, L>,
     // the objects being loaded, innermost last: one stack per thread using this resolver
@@ -377,6 +380,11 @@ where
             let chain = chains.entry(std::thread::current().id()).or_default();
             if chain.contains(&key) {
                 bail!("Recursive reference");
+            }
+            // every nested get is a few kB of native stack: a chain of a few thousand objects that
+            // each load the next one (parents of parents, fonts of fonts) must not get that far
+            if chain.len() >= MAX_NESTED_GETS {
+                bail!("references nested too deeply");
             }
             chain.push(key);
         }
